@@ -63,6 +63,14 @@ pub uninterp spec fn string_bytes(s: Seq<char>) -> Seq<u8>;
 pub fn string_from_utf8(v: Vec<u8>) -> (r: std::result::Result<String, FromUtf8Error>)
     ensures (match r { Ok(p) => utf8_decode(v@) == Some(p@), Err(_) => utf8_decode(v@) is None })
 { unimplemented!() }
+// std String::from_utf8_lossy (ASSUMED contract): the decoded text when the bytes are valid UTF-8, otherwise text with U+FFFD substitutions
+pub uninterp spec fn lossy_text(b: Seq<u8>) -> Seq<char>;
+#[verifier::external_body]
+pub fn string_from_utf8_lossy(v: &Vec<u8>) -> (r: String)
+    ensures r@ == (match utf8_decode(v@) { Some(t) => t, None => lossy_text(v@) })
+{ unimplemented!() }
+#[verifier::external_body]
+pub fn str_to_string(s: &str) -> (r: String) ensures r@ == s@ { unimplemented!() }
 // std str::replace(char, &str) (ASSUMED contract): every occurrence of the character replaced, left to right
 pub open spec fn replaced(s: Seq<char>, c: char, t: Seq<char>) -> Seq<char>
     decreases s.len()
@@ -73,10 +81,12 @@ pub open spec fn replaced(s: Seq<char>, c: char, t: Seq<char>) -> Seq<char>
 pub fn str_replace(s: &String, c: char, t: &str) -> (r: String) ensures r@ == replaced(s@, c, t@) { unimplemented!() }
 // std println! (ASSUMED): writes the text and one newline to stdout
 #[verifier::external_body]
-pub fn std_println(s: String) { unimplemented!() }
+pub fn std_println(out: &mut Ghost<Seq<char>>, s: String) ensures final(out)@ == old(out)@ + s@ + "\n"@ { unimplemented!() }
 // std print! (ASSUMED): writes the text to stdout
 #[verifier::external_body]
-pub fn std_print(s: String) { unimplemented!() }
+pub fn std_print(out: &mut Ghost<Seq<char>>, s: String) ensures final(out)@ == old(out)@ + s@ { unimplemented!() }
+#[verifier::external_body]
+pub fn string_is_empty(s: &String) -> (r: bool) ensures r == (s@.len() == 0) { unimplemented!() }
 pub open spec fn with_newline(t: Option<Seq<char>>) -> Option<Seq<char>> { match t { Some(x) => Some(x + "\n"@), None => None } }
 
 // =========================================================================================
@@ -434,12 +444,15 @@ def build(read):
     f, pr, aa, ant = out
     b.edits.append(f"D6: {total} `format!`/`println!` invocations expanded by std::fmt's documented meaning into fmt_lit / fmt_disp / fmt_dbg / fmt_cat "
                    "(assumed Display/Debug contracts); `s += x` -> add_str(&mut s, x) (assumed String AddAssign contract)")
-    f = extract.rewrite_once(f, "String::from_utf8(raw_str)", "string_from_utf8(raw_str)", "render: from_utf8")
+    f, k_u = re.subn(r"String::from_utf8\(", "string_from_utf8(", f)
+    f, k_l = re.subn(r"String::from_utf8_lossy\(", "string_from_utf8_lossy(", f)
     f, k = re.subn(r"\b(\w+)\.replace\(('[^']+'), (\"[^\"]*\")\)", r"str_replace(&\1, \2, \3)", f)
     if k != len(re.findall(r"\.replace\(", parts.copy_item(Built(), read, rel, "fn", "render"))):
         raise Undecided("render: a `.replace(..)` call has an unexpected shape")
     f = extract.rewrite_once(f, "Ok(s.to_string())", "Ok(s.clone())", "render: result")
-    b.edits.append("D6: String::from_utf8 -> string_from_utf8, X.replace(c, t) -> str_replace(&X, c, t) (assumed std contracts); `s.to_string()` -> `s.clone()`")
+    f, k_ts = re.subn(r"(\"(?:[^\"\\\\]|\\\\.)*\")\.to_string\(\)", r"str_to_string(\1)", f)
+    b.edits.append(f"D6: {k_u}x String::from_utf8 -> string_from_utf8, {k_l}x String::from_utf8_lossy -> string_from_utf8_lossy, X.replace(c, t) -> str_replace(&X, c, t), "
+                   f"{k_ts}x `\"..\".to_string()` -> str_to_string(..) (assumed std contracts); `s.to_string()` -> `s.clone()`")
     f = extract.rewrite_once(f, "for (name, prop) in &lock_deref!(props) {", "for (name, prop) in entries_of(&lock_deref!(props)) {", "render: object iteration")
     b.edits.append("D5: render: `for (name, prop) in &lock_deref!(props)` (BTreeMap iteration) -> `entries_of(..)` (assumed std contract: every entry once, ascending keys)")
     hdr, body = extract.fn_header_body(f)
@@ -476,16 +489,17 @@ def build(read):
                              "let item = match __itl.next() { Some(__x) => __x, None => break };\n proof { gi = gi + 1; assert(*item == src@[gi - 1]); assert(items_upto(src, gi) is None <==> rendered(item.v) is None); if rendered(item.v) is None { lemma_items_none_stays_none(src, gi, src@.len() as int); } }\n", "render: ghost index (list)")
     f = extract.rewrite_once(f, "let (name, prop) = match __ito.next() { Some(__x) => __x, None => break };\n",
                              "let (name, prop) = match __ito.next() { Some(__x) => __x, None => break };\n proof { gj = gj + 1; assert(*prop == entries(osrc@)[gj - 1].1); assert(props_upto(osrc, gj) is None <==> rendered(prop.v) is None); if rendered(prop.v) is None { lemma_props_none_stays_none(osrc, gj, entries(osrc@).len() as int); } }\n", "render: ghost index (object)")
-    ms = list(re.finditer(r"std_(println|print)\((.*)\);", pr))
-    if len(ms) != 1:
-        raise Undecided(f"print: expected exactly one `println!` / `print!`, found {len(ms)}")
-    m = ms[0]
-    written = "line@ + \"\\n\"@" if m.group(1) == "println" else "line@"
-    pr = pr[:m.start()] + ("let line = " + m.group(2) + ";\n    "
-                           f"assert(Some({written}) == with_newline(rendered(args@[0].v))) by {{ assert(rendered(args@[0].v) is Some); }} "
-                           "// [C19:print_writes_exactly_the_rendering_of_its_argument_followed_by_one_newline]\n    "
-                           f"std_{m.group(1)}(line);") + pr[m.end():]
-    b.edits.append("annotation: print: the text handed to `println!` is named `line` and asserted to be the rendering of the argument")
+    pr, k_ie = re.subn(r"\b(\w+)\.is_empty\(\)", r"string_is_empty(&\1)", pr)      # (in `print` only Strings have simple names)
+    pr, k_out = re.subn(r"std_(println|print)\(", r"std_\1(&mut out, ", pr)
+    if k_out < 1:
+        raise Undecided("print: no `println!` / `print!` found")
+    hdr_p, body_p = extract.fn_header_body(pr)
+    last_semi = max(off for off, c in extract.code_positions(body_p) if c == ";" and body_p[:off].count("{") - body_p[:off].count("}") == 1)
+    body_p = ("{\n    let mut out: Ghost<Seq<char>> = Ghost(Seq::empty());" + body_p[1:last_semi + 1]
+              + "\n    assert(Some(out@) == with_newline(rendered(args@[0].v))); // [C19:print_writes_exactly_the_rendering_of_its_argument_followed_by_one_newline]"
+              + body_p[last_semi + 1:])
+    pr = hdr_p + body_p
+    b.edits.append("D7: print: `println!(x)` / `print!(x)` append to a ghost output log (declared at the top of the body); where the function ends normally the log is asserted to be the rendering of the argument and one newline")
     pr = extract.annotate_fn(pr, spec=SPEC_PRINT)
     aa = extract.annotate_fn(aa, spec=SPEC_ASSERT_ARGS)
     ant = extract.annotate_fn(ant, spec=SPEC_ASSERT_NO_THIS)
@@ -540,3 +554,6 @@ def replays(failed):
     yield ("string with a newline inside a list is re-indented", "print([\"x\\ny\"])\n", exp("[\n    x\n    y,\n]\n"))
     yield ("print returns null", "print(print(1))\n", exp("1\n<null>\n"))
     yield ("print takes one argument", "print(1, 2)\n", exp(err="only takes 1 argument"))
+    yield ("the empty string still prints its newline", "print(\"\")\nprint(\"a\")\n", exp("\na\n"))
+    yield ("an empty object is rendered on two lines", "print({})\nprint([{}])\n", exp("{\n}\n[\n    {\n    },\n]\n"))
+    yield ("a byte string that is not UTF-8 cannot be printed", "print(\"é\"[0])\n", exp(err="UTF-8"))
